@@ -150,6 +150,6 @@ def run(tier, seed):
     }
     if n_acc < 30 or len(cases) - n_acc < 100:
         core.machinery_failure("vacuous run")
-    core.finish("C13", tier, seed, started, coverage, mism, None, assumptions=[
+    core.finish("C13", tier, seed, started, coverage, mism, lambda model, m: model == "variant-mismatch-in-tail-panics" and "is not weak replaceable by" in (m.detail or ""), assumptions=[
         "underlying -> distinct, anonymous struct -> named struct and casts between two different distinct types are not judged",
     ])
